@@ -1,7 +1,7 @@
 (* Model/C10Check.v — Qc instance of the Tucker model and the boolean certificate checks evaluated by the
    generated correspondence cases (exact rational arithmetic on pyttb's returned floats). *)
 From Coq Require Import List Arith Bool ZArith QArith Qabs Qcanon.
-From PV Require Import Base.Index Base.Sum Np.Array Model.Sparse Model.Repr Model.Harness Model.C10Tucker.
+From PV Require Import Base.Index Base.Sum Np.Array Model.Sparse Model.Repr Model.Harness Model.C10Tucker Model.C10Loop.
 Import ListNotations.
 Local Open Scope Qc_scope.
 
@@ -108,3 +108,31 @@ Definition invariant_ok (eps : Qc) (X : dense Qc) (n : nat) (U : qmatrix) : bool
   let GU := mmul q0 Qcplus Qcmult G U I r in
   let S := mmul q0 Qcplus Qcmult (mtrans q0 U I r) GU I r in
   orthob eps U I r && qmat_close (eps * qmax q1 (qtrace G)) GU (mmul q0 Qcplus Qcmult U S r r).
+
+(* ---- the stop rule of tucker_als evaluated on the observed per-iteration fit trace of ONE run ----
+   The transliterated loop of Model/C10Loop.v (tals_run: `for iteration in range(maxiters)`, `fitold = fit`, `fitchange = abs(fitold - fit)`,
+   `if fitchange < stoptol: break`, returned `iters`/`fit`) is executed with oracles that REPLAY the observed trace: the factor state is
+   the number of sweeps done so far, and the fit computed after sweep k is trace[k] (0 beyond the observed trace).  The run must end
+   exactly where pyttb's did: same `iters`, same fit trace, same reported fit. *)
+Definition qfchange_lt (fitold fit stoptol : Qc) : bool := qltb (qabs (fitold - fit)) stoptol.
+Definition rp_project (U : list nat) (_ : nat) : nat := nth 0%nat U 0%nat.       (* "Utilde" = number of sweeps done *)
+Definition rp_nvecs (Utilde _ _ : nat) : nat := S Utilde.                         (* the factor state after this sweep *)
+Definition rp_core (Utilde : nat) (_ : list nat) (_ : nat) : nat := Utilde.        (* index k of this sweep *)
+Definition rp_normres (trace : list Qc) (k : nat) : Qc := nth k trace q0.         (* carries the observed fit of sweep k *)
+Definition rp_fit (x : Qc) : Qc := x.
+Definition replay_tals (trace : list Qc) (stoptol : Qc) (maxiters : nat) :=
+  tals_run nat nat nat Qc rp_project rp_nvecs rp_core (rp_normres trace) rp_fit
+    qfchange_lt q0 [1%nat] [0%nat] stoptol 0%nat [0%nat] maxiters.
+Definition stop_ok (stoptol : Qc) (maxiters iters : nat) (trace : list Qc) (fit : Qc) : bool :=
+  match replay_tals trace stoptol maxiters with
+  | Some r => Nat.eqb (tr_iters _ _ _ r) iters && Nat.eqb (length trace) (S iters) &&
+              list_eqb Qc_eq_bool (tr_trace _ _ _ r) trace && Qc_eq_bool (tr_fit _ _ _ r) fit
+  | None => false
+  end.
+
+(* hosvd(verbosity >= 1) prints ||X-T||/||X||: the printed number (6 significant digits) squared times ||X||^2 is the recomputed
+   ||X - T||^2 (relative 3e-5: six printed digits; absolute eps * max(1,||X||^2)) *)
+Definition relprint_ok (eps printed : Qc) (X : dense Qc) (T : ttensor Qc) : bool :=
+  let lhs := printed * printed * qsumsq (ddata X) in
+  let e := qdiffsq X (qtfull_ttm T) in
+  qleb (qabs (lhs - e)) (Q2Qc (3 # 100000) * lhs + eps * qscale X).
